@@ -45,6 +45,13 @@ func (m *Machine) doIndexAddr(t *Thread, f *Frame, i *ssa.IndexAddr) {
 	idx := m.idx64(m.get(f, i.Index), i.Index.Type())
 	switch a := x.(type) {
 	case Slice:
+		if !idx.IsConst() && scalarElem(i.Type()) && a.Len <= 512 && a.Len > 0 {
+			if !m.symBounds(t, idx, a.Len, i) {
+				return
+			}
+			f.Regs[i] = SymPtr{C: a.C, Off: a.Off, N: a.Len, Idx: idx}
+			break
+		}
 		k, ok := m.checkIndex(t, idx, a.Len, i)
 		if !ok {
 			return
@@ -56,6 +63,13 @@ func (m *Machine) doIndexAddr(t *Thread, f *Frame, i *ssa.IndexAddr) {
 			return
 		}
 		arr := a.C.E[a.I].(*Cells)
+		if !idx.IsConst() && scalarElem(i.Type()) && len(arr.E) <= 512 && len(arr.E) > 0 {
+			if !m.symBounds(t, idx, len(arr.E), i) {
+				return
+			}
+			f.Regs[i] = SymPtr{C: arr, Off: 0, N: len(arr.E), Idx: idx}
+			break
+		}
 		k, ok := m.checkIndex(t, idx, len(arr.E), i)
 		if !ok {
 			return
@@ -68,31 +82,68 @@ func (m *Machine) doIndexAddr(t *Thread, f *Frame, i *ssa.IndexAddr) {
 			m.goPanic(t, "runtime error: index out of range (abstract slice)", i)
 			return
 		}
-		panic(unsupported("address of abstract slice element at " + m.pos(i)))
+		f.Regs[i] = AbsPtr{B: a.B, Idx: smt.Add(a.Off, idx)}
 	default:
 		panic(unsupported(fmt.Sprintf("IndexAddr on %T at %s", x, m.pos(i))))
 	}
 	f.PC++
 }
 
+// scalarElem reports whether a pointer type points at a plain numeric/bool cell.
+func scalarElem(pt types.Type) bool {
+	p, ok := pt.Underlying().(*types.Pointer)
+	if !ok {
+		return false
+	}
+	if _, _, ok := bvWidth(p.Elem()); ok {
+		return true
+	}
+	return isBool(p.Elem())
+}
+
+// symBounds raises the bounds obligation for a symbolic index; false means a panic was started.
+func (m *Machine) symBounds(t *Thread, idx *smt.Term, n int, ins ssa.Instruction) bool {
+	inb := smt.Ult(idx, smt.BV(64, uint64(n)))
+	if inb.IsTrue() {
+		return true
+	}
+	m.Res.PanicChecks++
+	if !m.branch(inb, "bounds@"+m.pos(ins)) {
+		m.goPanic(t, fmt.Sprintf("runtime error: index out of range [symbolic] with length %d", n), ins)
+		return false
+	}
+	return true
+}
+
 // selectByIndex builds an ite-chain reading elems[idx] (all scalar terms) without forking.
 func selectByIndex(elems []Value, idx *smt.Term) (*smt.Term, bool) {
-	if len(elems) == 0 || len(elems) > 128 {
+	if len(elems) == 0 || len(elems) > 512 {
 		return nil, false
 	}
 	first, ok := elems[0].(*smt.Term)
 	if !ok {
 		return nil, false
 	}
-	r := elems[len(elems)-1].(*smt.Term)
-	for k := len(elems) - 2; k >= 0; k-- {
-		e, ok := elems[k].(*smt.Term)
-		if !ok || e.Sort != first.Sort {
+	ts := make([]*smt.Term, len(elems))
+	for k, e := range elems {
+		t, ok := e.(*smt.Term)
+		if !ok || t.Sort != first.Sort {
 			return nil, false
 		}
-		r = smt.Ite(smt.Eq(idx, smt.BV(64, uint64(k))), e, r)
+		ts[k] = t
 	}
-	return r, true
+	return selectTree(ts, 0, idx), true
+}
+
+// selectTree builds a balanced ite tree (uniform regions collapse through Ite's a==b simplification).
+func selectTree(ts []*smt.Term, base int, idx *smt.Term) *smt.Term {
+	if len(ts) == 1 {
+		return ts[0]
+	}
+	mid := len(ts) / 2
+	l := selectTree(ts[:mid], base, idx)
+	r := selectTree(ts[mid:], base+mid, idx)
+	return smt.Ite(smt.Ult(idx, smt.BV(64, uint64(base+mid))), l, r)
 }
 
 func (m *Machine) doIndex(t *Thread, f *Frame, i *ssa.Index) {
